@@ -191,7 +191,9 @@ OnRet(m, e) ==
                THEN {<<"C08", "unanswered request did not end in a timeout after exactly `retries` transmissions">>} ELSE {}
       b12 == IF DevLevel /\ cl.op = "auth" /\ ~ok /\ e.r \notin {"auth", "cancelled"}
                THEN {<<"C06", "device-level authenticate failed with something other than an authentication error">>} ELSE {}
-  IN [ m EXCEPT !.bad = @ \cup b1 \cup b2 \cup b3 \cup b4 \cup b5 \cup b5b \cup b6 \cup b7 \cup b8 \cup b9 \cup b10 \cup b11 \cup b12,
+      b13 == IF cl.op = "auth" /\ cl.genuine /\ cl.canSucceed /\ e.r = "auth"
+               THEN {<<"C06", "authentication failed although the device's reply proved knowledge of the key">>} ELSE {}
+  IN [ m EXCEPT !.bad = @ \cup b1 \cup b2 \cup b3 \cup b4 \cup b5 \cup b5b \cup b6 \cup b7 \cup b8 \cup b9 \cup b10 \cup b11 \cup b12 \cup b13,
                 !.call = NoCall, !.stored = e.stored, !.prevFailed = ~ok,
                 !.conns = [c \in 1..Len(m.conns) |-> IF c = m.cur /\ e.r = "frames" THEN [m.conns[c] EXCEPT !.stray = 0] ELSE m.conns[c]] ]
 
